@@ -554,6 +554,40 @@ where
                     json!({"cls":"write","res": ress[0].clone(), "ress_w": ress})
                 }
             }
+            // ------------------------------------------------ the whole value replaced through a mutable access
+            // (`*access = new`): the old value is destroyed by the assignment, the new one takes its place
+            "get_mut_replace" => {
+                let mut st = wr::<T>(world);
+                let r = match st.get_mut(e) {
+                    Some(mut a) => {
+                        let before = (&*a).js();
+                        *a.access_mut() = T::new(c.0, c.1);
+                        before
+                    }
+                    None => absent(),
+                };
+                json!({"cls":"replace","res": r})
+            }
+            "rm_get_other_mut_replace" => {
+                // through the first item of the lending join over a mutable restricted view
+                let mut st = wr::<T>(world);
+                let mut r = st.restrict_mut();
+                let mut it = (&mut r).lend_join();
+                match it.next() {
+                    Some(mut item) => {
+                        let res = match item.get_other_mut(e) {
+                            Some(mut a) => {
+                                let before = (&*a).js();
+                                *a.access_mut() = T::new(c.0, c.1);
+                                before
+                            }
+                            None => absent(),
+                        };
+                        json!({"cls":"replace","res": res})
+                    }
+                    None => json!({"cls":"skip"}),
+                }
+            }
             "entry_get_mut" => {
                 let mut st = wr::<T>(world);
                 let r = match st.entry(e) {
